@@ -34,6 +34,8 @@ OPT_SETS = [
          link_variants=["honest"] * 5 + ["missing", "edited", "disagree_prod"]),
     dict(INSP, root_variant="honest", vary_keys=False, rule_violation=True, link_variants=["honest"]),
     dict(INSP, root_variant="honest", vary_keys=False, deviate=False, p_sub=0.0, insp_counts=[2, 3, 3]),
+    # with substitution parameters: every inspection still runs ITS OWN (substituted) command, once, in order
+    {"ph": True, "seq": False, "vary_keys": False, "deviate": False, "p_sub": 0.1, "insp_counts": [2, 3, 3]},
 ]
 
 STAGE = {"SignatureVerificationError": "layout-signature", "LayoutExpiredError": "expiry", "LinkNotFoundError": "load-links",
@@ -55,7 +57,8 @@ def stage(o):
 def oracle(scen, out):
     """C07 on what the implementation did: list of violated clauses (empty = fine)"""
     lay = scen.get("layouts") or {}
-    log = list(out.get("log", []))
+    # (placeholder scenarios also log the substituted argument of a command as "=<value>": not an inspection id)
+    log = [x for x in out.get("log", []) if not x.startswith("=")]
     bad = []
     owner, behave = {}, {}
     for path, info in lay.items():
@@ -110,6 +113,19 @@ def run(ctx):
         core.check_props(ctx, PROPS)
     # syntactic ties regenerated from the working tree: stage order and the shape of the stage functions
     vskel.check(ctx, ("verify", "inspections"))
+    # the command line must impose the documented default time limit on inspections when none is given
+    try:
+        import in_toto.settings as _st
+        from in_toto import in_toto_verify as _cli
+        got = _cli.create_parser().parse_args(["-l", "root.layout", "--verification-keys", "k.pub"]).inspect_timeout
+        if got != _st.LINK_CMD_EXEC_TIMEOUT or got is None:
+            ctx.violation("in-toto-verify without --inspection-timeout runs inspection commands with time limit %r instead of the "
+                          "default %r: an inspection that never ends is never stopped" % (got, _st.LINK_CMD_EXEC_TIMEOUT),
+                          {"argv": ["in-toto-verify", "-l", "root.layout", "--verification-keys", "k.pub"],
+                           "parsed_inspection_timeout": got, "documented_default": _st.LINK_CMD_EXEC_TIMEOUT})
+        ctx.oblige("cli-default-inspection-time-limit", got == _st.LINK_CMD_EXEC_TIMEOUT and got is not None, repr(got))
+    except SystemExit:
+        ctx.oblige("cli-default-inspection-time-limit", False, "argument parser rejected a minimal command line")
     recs, model = vcore.run_scenarios(ctx, OPT_SETS, n,
                                       families=("ed25519", "rsa", "ecdsa") if ctx.thorough() else ("ed25519",))
     dist, nviol = {}, 0
